@@ -172,8 +172,9 @@ where
             }
 
             // cleanup: we used `Some(String::new())` to mark unnamed variables as present
+            // (also pop `None`s: `names` must have minimal length)
             while let Some(name) = vars.names.last() {
-                if !name.as_ref().is_some_and(String::is_empty) {
+                if name.as_ref().is_some_and(|name| !name.is_empty()) {
                     break;
                 }
                 vars.names.pop();
